@@ -305,11 +305,13 @@ func (w *world) fault() (Fault, bool) {
 
 func (w *world) noteRealms(www []string) {
 	for _, h := range www {
-		if _, params, ok := ociauth.ParseWWWAuthenticateForVerif(h); ok {
-			if r, ok := params["realm"]; ok {
-				w.realms[r] = true
+		recoverCall(func() {
+			if _, params, ok := ociauth.ParseWWWAuthenticateForVerif(h); ok {
+				if r, ok := params["realm"]; ok {
+					w.realms[r] = true
+				}
 			}
-		}
+		})
 	}
 }
 
